@@ -7,6 +7,8 @@ open XV.QcTree XV.Drv
 structure DS where
   table : List (Nat × Info)
   st    : St
+  /-- `InitQCTree` returned nil: every op of the case answers `no-tree` -/
+  dead  : Bool := false
 
 def world (table : List (Nat × Info)) : World :=
   fun x => match table.lookup x with
@@ -50,9 +52,8 @@ def runOp (d : DS) (o : Op) : DS × String :=
   let (s, ok) := stepOp (world d.table) d.st o
   ({ d with st := s }, status ok ++ " " ++ dump s)
 
-def step (d : DS) (line : String) : DS × String :=
-  match words line with
-  | ["reset"] => (initDS, "ok " ++ dump initDS.st)
+def stepLive (d : DS) (ws : List String) : DS × String :=
+  match ws with
   | ["dump"] => (d, "ok " ++ dump d.st)
   | ["ins", id, view, par, _pview] =>
     match id.toNat?, view.toInt?, parseParent par with
@@ -77,6 +78,26 @@ def step (d : DS) (line : String) : DS × String :=
     | some v => let (s, _) := stepOp (world d.table) d.st (.pm v); ({ d with st := s }, "view " ++ toString s.pm)
     | none => (d, "bad-op")
   | _ => (d, "bad-op")
+
+/-- the content of the ledger's blocks `0..tip`: block `h` is proposal `h`, view `h`, parent `h - 1` -/
+def ledgerTable (tip : Nat) : List (Nat × Info) :=
+  (List.range (tip + 1)).map (fun h => (h, { view := h, parent := if h = 0 then none else some (h - 1) }))
+
+def treeOps : List String := ["dump", "ins", "prop", "high", "vote", "enforce", "commit", "pm"]
+
+def step (d : DS) (line : String) : DS × String :=
+  match words line with
+  | ["reset"] => (initDS, "ok " ++ dump initDS.st)
+  | ["reset", start, tip] =>
+    match start.toNat?, tip.toNat? with
+    | some start, some tip =>
+      match initQCTree (fun h => h) start tip with
+      | some s => ({ table := ledgerTable tip, st := s }, "ok " ++ dump s)
+      | none => ({ initDS with dead := true }, "nil")
+    | _, _ => (d, "bad-op")
+  | op :: rest =>
+    if d.dead then (d, if treeOps.contains op then "no-tree" else "bad-op") else stepLive d (op :: rest)
+  | [] => (d, "bad-op")
 
 def run : IO Unit := loop step initDS
 
